@@ -8,7 +8,7 @@ PROP = dict(
         nontrivial=r"^(budget|commit|rollback|rhp4debit|credit) .*res=ok", min_ops=8, min_kinds=3,
         shrink_budget=80,
         trusted_base=COMMON_TB + [
-            "atomicity: AccountManager methods run under AccountManager.mu, store methods inside one SQLite transaction with deferred rollback; hence interleavings of concurrent RPCs = sequences of the model's atomic operations (assumed, not verified on real goroutines)",
+            "atomicity: AccountManager methods run under AccountManager.mu, store methods inside one SQLite transaction with deferred rollback; hence interleavings of concurrent RPCs = sequences of the model's atomic operations (assumed in the proofs; exercised, not proved, by the `par` rounds: 2-4 goroutines reserve / spend / commit on one account at once and the counts and the final ledger must equal those of a sequential order)",
             "RHP3 and RHP4 accounts share the table `accounts` (one key space) - read off persist/sqlite/accounts.go and confirmed by every differential run (r4bal = sbal)",
             "RHP4CreditAccounts is called with usage.AccountFunding = sum of the deposits (how coreutils' handleRPCFundAccounts builds it)",
             "read-only SQL shim harness/shims/persist/sqlite/zz_verif_accounts.go",
